@@ -7,7 +7,7 @@ DEFAULT_WEIGHTS = {
     "put_new": 10, "put_same": 3, "put_reser": 2, "put_change": 6, "put_revert": 3, "put_invalid": 3,
     "put_cond": 3, "put_uidconflict": 2, "put_uidchange": 2, "post": 2, "delete": 5, "delete_missing": 1, "delete_cond_stale": 1,
     "mkcol_new": 1.2, "mkcol_existing": 1, "delete_col": 0.8, "proppatch": 2, "read": 4, "restart": 0.5,
-    "put_missing_col": 0.5, "put_nouid": 0.5, "put_moved": 0, "put_swap": 0, "put_reserved": 0.7, "locked_writes": 0, "control_dir": 0.5,
+    "put_missing_col": 0.5, "put_nouid": 0.5, "put_moved": 0, "put_swap": 0, "put_reserved": 0.7, "locked_writes": 0, "control_dir": 0.5, "put_type_confusion": 0.6,
 }
 
 # names for C01-class histories: URL-hostile but not URL-structural
@@ -302,6 +302,24 @@ class Driver:
         if self.rng.random() < 0.4:
             # ... and a DELETE on such a name must not remove the store's own file
             w.delete(col.path, name)
+        return [col.path]
+
+    def op_put_type_confusion(self):
+        """a member whose name says calendar / card but whose first upload was declared text/plain (and is not one),
+        then the same name uploaded with its proper media type: whatever the server answers, a refusal has no effect"""
+        col = self.pick_col(("calendar", "addressbook", "plain"))
+        if col is None:
+            return None
+        w, rng = self.w, self.rng
+        ext = col.ext() if col.kind != "plain" else rng.choice([".ics", ".vcf"])
+        name = "conf%d%s" % (rng.randint(1, 2), ext)
+        if name in col.members and rng.random() < 0.7:
+            uid = self.free_uid(col, avoid_name=name) or "conf-uid"
+            body, uid, tok = self.body_for(name, uid)
+            w.put(col.path, name, body, op="put_proper_type_over_plain", uid=uid, token=tok)
+        else:
+            tok = w.new_token()
+            w.put(col.path, name, ("just some notes, not a calendar " + tok + "\n").encode(), op="put_declared_plain", ctype="text/plain", token=tok)
         return [col.path]
 
     def op_control_dir(self):
